@@ -9,7 +9,7 @@ Ltac coreb :=
   cbn [slock hub others bsub jobs thr next_ext next_int
        set_status set_authed set_closing set_chans set_genctr set_gclosed set_cmu set_pmu set_pinfl
        set_kstarted set_slock set_hub set_others set_reg set_pres set_bsub set_jobs set_gconn set_gsub
-       set_trace set_thr set_next_ext set_next_int set_panicked set_wclosed set_gst].
+       set_trace set_thr set_next_ext set_next_int set_panicked set_wclosed set_hreg set_shut set_gst].
 
 Definition same26 (s s' : st) : Prop :=
   slock s' = slock s /\ hub s' = hub s /\ others s' = others s /\ bsub s' = bsub s /\ jobs s' = jobs s /\
@@ -205,6 +205,14 @@ Proof.
     eapply u_timeout_B; [exact I|congruence|intros c0; rewrite ET; cbn; tauto|cbn; tauto|exact EU].
 Qed.
 
+Lemma InvB_bump sl hb ot bs jb th ne ni ne' ni' :
+  InvB sl hb ot bs jb th ne ni -> ne <= ne' -> ni <= ni' -> InvB sl hb ot bs jb th ne' ni'.
+Proof.
+  intros I L1 L2. destruct I as [A1 A2 A3 A4 A5 A6 A7 A8]. constructor; auto.
+  intros t0 H0. specialize (A1 t0 H0).
+  destruct A1 as [(k & -> & Hk)|(k & -> & Hk)]; [left|right]; exists k; split; auto; lia.
+Qed.
+
 Lemma spawn_B s o s' : InvBS s -> spawn s o = Some s' -> InvBS s'.
 Proof.
   intros I H. unfold spawn in H.
@@ -215,7 +223,10 @@ Proof.
     repeat match type of H with
     | (if ?c then _ else _) = _ => destruct c
     end; try discriminate; inv H; coreb;
-    (eapply Q_spawn; [exact I|exact FR|lia|lia|exact TOK|cbn; intros ?; intuition discriminate]).
+    try (eapply Q_spawn; [exact I|exact FR|lia|lia|exact TOK|cbn; intros ?; intuition discriminate]; fail).
+  destruct (reg s); coreb.
+  - eapply Q_spawn; [exact I|eapply fresh_int_b; eauto|lia|lia|right; exists (next_int s); split; auto; lia|cbn; tauto].
+  - eapply InvB_bump; [exact I|lia|lia].
 Qed.
 
 Lemma astep_B s l s' : InvBS s -> astep s l = Some s' -> InvBS s'.
